@@ -14,7 +14,9 @@
      IoR1..IoR4      readable():  R will_close, R close_when_flushed,
                      R requests (len > lookahead), R total_outbufs_len   -- short-circuit [or]
      IoW1..IoW3      writable():  R total_outbufs_len > 0, R will_close, R close_when_flushed
-     IoSel           select()/poll(): blocks; reads the trigger (clears "pulled")
+     IoSel, IoTrig   select()/poll(): blocks until a descriptor is ready; trigger.handle_read:
+                     os.read drains the pipe ([pulled] = the pipe is not empty; pull_trigger =
+                     os.write of one byte)
      IoRecv          handle_read_event: R connected; recv
      IoRcvA..IoRcvRel  received(): A requests_lock; R will_close; R close_when_flushed;
                      per item: completed request -> requests.append, len==1 -> add_task;
@@ -105,6 +107,8 @@ Inductive iopc :=
 | IoR1 | IoR2 | IoR3 | IoR4
 | IoW1 (r : bool) | IoW2 (r : bool) | IoW3 (r : bool)
 | IoSel (r w : bool)
+| IoTrig (rr w : bool)
+| IoTrigL (rr w : bool)
 | IoRecv (ww : bool)
 | IoRcvA (its : list item) (ww : bool)
 | IoRcv1 (its : list item) (ww : bool)
@@ -164,14 +168,14 @@ Definition init (nw : nat) : state :=
   mkSt false false true 0 0 0 false false None None false false 0 [] [] false IoR1 (repeat WAcq nw).
 
 Inductive attr := AWc | ACwf | AConn | ATot | AReq | ARq.   (* ARq: self.request, only where it delimits an effect *)
-Inductive lk := LkO | LkR | LkD.
+Inductive lk := LkO | LkR | LkD | LkT.   (* LkT: the trigger's lock (thunks) *)
 Inductive cv := CvO | CvQ.
 
 Inductive label :=
 | LR (a : attr) | LW (a : attr)
 | LAcq (l : lk) | LTry (l : lk) | LRel (l : lk)
 | LWait (c : cv) | LWake (c : cv) | LNotify (c : cv)
-| LSend | LRecv | LSelect | LPull | LAddTask
+| LSend | LRecv | LSelect | LTrigRead | LPull | LAddTask
 | LWrite | LDone | LMapDel | LClient.
 
 (* choices: which thread moves + what the environment decides for that move *)
@@ -283,13 +287,19 @@ Definition step_io (c : cfg) (s : state) (ch : choice) : option (state * list la
   | IoW1 r, CIo => ret (goio s (if 0 <? total s then IoSel r true else IoW2 r)) [LR ATot]
   | IoW2 r, CIo => ret (goio s (if wc s then IoSel r true else IoW3 r)) [LR AWc]
   | IoW3 r, CIo => ret (goio s (IoSel r (cwf s))) [LR ACwf]
-  (* select / poll; the trigger's handle_read clears "pulled" *)
+  (* select / poll: returns when the trigger's pipe holds a byte or a polled descriptor of the
+     channel is ready; the ready sets are computed here *)
   | IoSel r w, CIo =>
       if sel_enabled s r w then
         let rr := r && read_ready s in
-        let s1 := set_pulled s false in
-        ret (if rr then goio s1 (IoRecv w) else after_read c w s1) [LSelect]
+        if pulled s then ret (goio s (IoTrig rr w)) [LSelect]
+        else ret (if rr then goio s (IoRecv w) else after_read c w s) [LSelect]
       else None
+  (* the trigger's handle_read: os.read drains the pipe (every byte written so far) *)
+  | IoTrig rr w, CIo => ret (goio (set_pulled s false) (IoTrigL rr w)) [LTrigRead]
+  (* ... then runs the thunks (none in waitress) under the trigger's own lock *)
+  | IoTrigL rr w, CIo =>
+      ret (if rr then goio s (IoRecv w) else after_read c w s) [LAcq LkT; LRel LkT]
   (* handle_read_event (R connected) -> handle_read -> recv *)
   | IoRecv ww, CIoRecv true _ =>
       match rx s with
